@@ -1217,7 +1217,8 @@ func (m *monitor) observe(o op, mo, ro string) []corr.Hit {
 	sec := m.sec()
 	// ---- admissibility of the mem/rds comparison (property quantifier): positive ttls, keep-ttl on live keys only,
 	// no call on a key at a clock reading equal to its deadline, distinct keys <= size
-	if o.kind == "set" || (o.kind == "get" && o.hasUpd) {
+	if (o.kind == "set" && !(o.keep && !o.mne)) || (o.kind == "get" && o.hasUpd) {
+		// a keep-ttl overwrite does not use its ttl option at all (domain of `ttl_mem_rds_agree`: `admOp`)
 		if m.effTTL(o) <= 0 {
 			m.admissible = false
 		}
@@ -1422,6 +1423,9 @@ func genAdmissible(r *rng.R, n int) corr.Case {
 			tok := g.ttlTok(false)
 			keep := liveNow && r.Chance(1, 3)
 			mne := r.Chance(1, 4)
+			if keep && !mne && r.Chance(1, 3) {
+				tok = r.Pick("0", "-1", "-7") // unused by a keep-ttl overwrite: still inside the comparison domain
+			}
 			g.emit(fmt.Sprintf("set %s %s %s %s %s", k, g.val(), tok, b01(mne), b01(keep)))
 			switch {
 			case mne && liveNow: // exists
